@@ -13,7 +13,7 @@
    layers.  The implementation-level oracle runs the complete round trip on every accepted string of every archetype
    and on the 119 documented strings; the erasure itself is evaluated with the extracted [erase_ext]. *)
 From Coq Require Import List ZArith QArith Ascii String Bool.
-From GBS Require Import Model.PyStr Model.Num Model.Bond Model.Token Model.Render Src.SrcBond Proofs.BondP Proofs.TokenP Proofs.RenderP Proofs.StrP Proofs.RoundTrip Src.SrcDescr Proofs.DescrSrcP Src.SrcDescrPrint Proofs.DescrPrintSrcP Model.DistFam Model.Stoch Src.SrcPrint Proofs.PrintSrcP.
+From GBS Require Import Model.PyStr Model.Num Model.Bond Model.Token Model.Render Src.SrcBond Proofs.BondP Proofs.TokenP Proofs.RenderP Proofs.StrP Proofs.RoundTrip Src.SrcDescr Proofs.DescrSrcP Src.SrcDescrPrint Proofs.DescrPrintSrcP Model.DistFam Model.Stoch Src.SrcPrint Proofs.PrintSrcP Src.SrcDist Model.Mol Proofs.MixRoundTrip.
 From GBS Require Props.C03.
 Import ListNotations.
 
@@ -142,6 +142,23 @@ Proof.
   eexists. split; [vm_compute; reflexivity|]. split; [|vm_compute; reflexivity].
   repeat constructor; vm_compute; try reflexivity; discriminate.
 Qed.
+
+(* the mixture specifier, for EVERY accepted text: what Mixture.generate_string prints (the printer written over the expressions regenerated
+   from mixture.py: the text as written when no mass was read, else the percentage, else the absolute mass) is read back by
+   Mixture.__init__ as the same masses.  mass_text is what Python's repr guarantees of a float (reads back, not empty, no bar, no '%');
+   the harness checks it on every printed mass.  On the pinned tree a specifier without a number printed as ".|None%|", which is rejected:
+   the hypothesis-free first case of the proof did not go through (repaired, DESIGN 12.2). *)
+Theorem C01_mixture_round_trip : forall fprint raw x, parse_mixture raw = OK x ->
+  (forall w, mx_abs x = Some w \/ mx_rel x = Some w -> mass_text fprint w) ->
+  parse_mixture (print_mix_src fprint raw x) = OK x.
+Proof. intros fprint raw x H Hw. rewrite print_mix_is_source. exact (mixture_round_trip fprint raw x H Hw). Qed.
+Print Assumptions C01_mixture_round_trip.
+
+Example C01_mixture_example :
+  parse_mixture (lit ".| 12.5 %|") = OK {| mx_abs := None; mx_rel := Some (Fin (25 # 2)) |} /\
+  print_mix_src fprint_dec (lit ".| 12.5 %|") {| mx_abs := None; mx_rel := Some (Fin (25 # 2)) |} = lit ".|12.5%|" /\
+  print_mix_src fprint_dec (lit ".|x|") {| mx_abs := None; mx_rel := None |} = lit ".|x|".
+Proof. vm_compute. repeat split; reflexivity. Qed.
 
 Example C01_example :
   erase_ext (lit "C[$|0.5|]{[$][$|2.0|]CC[$]; [$][H][$]}|gauss(10.0, 1.0)|[$]O.|50.0%|") = lit "C[$]{[$][$]CC[$]; [$][H][$]}[$]O.".
